@@ -71,7 +71,9 @@ func RunOnce(sc *Scenario, prefix []int, logOps bool) (*sched.Exec, *Instance, *
 	vsync.ResetChannels()
 	vfsnotify.ResetLog()
 	in := sc.New()
-	vfs.W.LogOps = logOps
+	if logOps {
+		vfs.W.LogOps = true
+	}
 	maxSteps := sc.MaxSteps
 	if maxSteps == 0 {
 		maxSteps = 20000
